@@ -12,6 +12,7 @@ open Proto Minimizer
       count <lo> <hi> <step>          -> int((hi-lo)/step)+1
       wrap  <maxReps> <bounds lo:hi;…> <attempts conv:rep:f:x1,x2;…> <reeval table f:x1,x2;…>
               -> ok <reps> <reevaluated> <f> <x> | err <msg>
+      cobyla <bounds lo:hi;…> <x>    -> values of the COBYLA inequality constraints at x (ERR = IndexError)
       max   (same arguments as wrap; the attempts carry the negated function, the table the llh values)
               -> ok <reps> <logLambdaMax> <x> | err <msg>
     The objective of the model is a lookup in the table of the calls the real objective answered
@@ -112,6 +113,10 @@ def answer (line : String) : String :=
       match maximize (attemptOf (parseAttempts as)) (pN mr) (parseBounds bs) (funcOf (parseReeval tab)) with
       | .error e => s!"err {e}"
       | .ok (v, x, reps) => s!"ok {reps} {fF v} {fListD fF x}"
+  | ["cobyla", bs, xs] =>
+      let x := pList pF xs
+      fListD (fun (v : Option Float) => match v with | some y => fF y | none => "ERR")
+        ((cobylaConstraints (parseBounds bs)).map (fun g => g x))
   | _ => "bad-op"
 
 def main : IO Unit := do loop (← IO.getStdin) answer
